@@ -5,7 +5,7 @@
    Session.handle_tls_13_application_record and the independence of the two directions' cipher state. *)
 From Coq Require Import ZArith List Bool Lia.
 From Coq Require String.
-Require Import PyLib PyLibP SuiteTypes Crypto KeySchedule Packet Reassembly Decryptor TlsSession TlsRecords C01P.
+Require Import PyLib PyLibP SuiteTypes Crypto KeySchedule Packet Reassembly Decryptor TlsSession TlsRecords C01P Hs13P.
 Import ListNotations.
 Open Scope Z_scope.
 
@@ -134,5 +134,181 @@ Proof.
     destruct (IH s1 _ _ _ _ _ HI1 Ht E2) as (s' & out & Hr & Hm & Hrec & HI').
     eexists s', _. split; [cbn [session_run]; rewrite Hh; cbn [bind fst snd]; rewrite Hr; cbn [bind fst snd]; reflexivity|].
     cbn [map app]. rewrite Hm, Hrec. split; [reflexivity|split; [reflexivity|exact HI']].
+Qed.
+
+(* ---------------- the handshake phase of one direction ---------------- *)
+Definition hs_buf (s : tcore) (srv : bool) : bytes := if srv then ts_hs_server s else ts_hs_client s.
+Definition Sess (s : tcore) (d : decryptor) : Prop := ts_can_decrypt s = true /\ ts_version s = VSet TLS13 /\ ts_decryptor s = Some d /\ class13 d.
+
+(* the decryptor still holds the direction's handshake keys and knows the application keys (ak, ai) it will switch to *)
+Definition switch_ready (d : decryptor) (srv : bool) (ak ai : bytes) : Prop :=
+  (if srv then d_s_hs_key d else d_c_hs_key d) <> None /\ (if srv then d_s_hs_iv d else d_c_hs_iv d) <> None /\
+  (if srv then d_s_app_key d else d_c_app_key d) = Some ak /\ (if srv then d_s_app_iv d else d_c_app_iv d) = Some ai.
+
+Lemma switch_ready_set_seq d srv ak ai x n : switch_ready d srv ak ai -> switch_ready (set_seq d x n) srv ak ai.
+Proof. unfold switch_ready. destruct srv, x; cbn [set_seq d_s_hs_key d_c_hs_key d_s_hs_iv d_c_hs_iv d_s_app_key d_c_app_key d_s_app_iv d_c_app_iv]; tauto. Qed.
+
+Lemma switch_keys d srv ak ai : switch_ready d srv ak ai -> class13 d ->
+  exists d', update_keys d srv = Ok d' /\ class13 d' /\ d_tag_length d' = d_tag_length d /\
+             cur_key d' srv = Some ak /\ cur_iv d' srv = Some ai /\ cur_seq d' srv = 0 /\
+             cur_key d' (negb srv) = cur_key d (negb srv) /\ cur_iv d' (negb srv) = cur_iv d (negb srv) /\ cur_seq d' (negb srv) = cur_seq d (negb srv) /\
+             (forall ak' ai', switch_ready d (negb srv) ak' ai' -> switch_ready d' (negb srv) ak' ai').
+Proof.
+  intros (H1 & H2 & H3 & H4) Hc. unfold update_keys.
+  destruct srv.
+  - destruct (d_s_hs_key d); [|contradiction]. destruct (d_s_hs_iv d); [|contradiction]. rewrite H3, H4.
+    eexists. split; [reflexivity|]. unfold class13, cur_key, cur_iv, cur_seq, switch_ready in *. cbn. repeat split; auto; tauto.
+  - destruct (d_c_hs_key d); [|contradiction]. destruct (d_c_hs_iv d); [|contradiction]. rewrite H3, H4.
+    eexists. split; [reflexivity|]. unfold class13, cur_key, cur_iv, cur_seq, switch_ready in *. cbn. repeat split; auto; tauto.
+Qed.
+
+(* a handshake record: inner type 22 *)
+Definition piece_ok (p : bytes * nat) : Prop := fst p <> [] /\ len (fst p ++ [22] ++ repeat 0 (snd p)) + tag < 65536.
+
+Lemma one_hs_record s d srv key iv st n piece pad st' r : Sess s d -> 8 <= len iv -> P13 srv key iv tag (S n) d st -> piece_ok (piece, pad) ->
+  send13 C a tag key iv version st piece 22 pad = Ok (st', r) ->
+  let d1 := set_seq d srv (ss_seq st + 1) in
+  let buf := hs_buf s srv ++ piece in
+  handle_tls_record C tbl parts keylog s r srv =
+    Ok (let '(d2, remaining) := hs13_consume (S (length buf)) d1 buf srv in (set_hs (set_dec (set_dec s (Some d1)) (Some d2)) srv remaining, [])) /\
+  P13 srv key iv tag n d1 st' /\ class13 d1.
+Proof.
+  intros (Hcan & Hv & Hd & Hcl) Hiv (Hk & Hi & Ht & Hs & H0 & Hb) [_ Hok] Hsend. cbn [fst snd] in Hok.
+  assert (Hty : r_type r = 23).
+  { unfold send13 in Hsend. destruct (c_aead_enc C a _ _ _ _ _); [|discriminate]. cbn [bind] in Hsend. injection Hsend as _ <-. reflexivity. }
+  rewrite <- Ht in Hok, Hsend. assert (Htag' : 0 <= d_tag_length d) by (rewrite Ht; exact Htag).
+  destruct (tls13_record C L d srv a key iv version st piece 22 pad st' r Hk Hi Hiv Hs ltac:(lia) Hver Hok Htag' Hsend) as [Hdec Hs'].
+  cbv zeta. split; [|split].
+  - unfold handle_tls_record. rewrite Hty. change (23 =? 22) with false. change (23 =? 23) with true. cbv iota.
+    rewrite Hcan, Hd, Hv. unfold handle_tls_13_application_record.
+    rewrite (class13_dispatch d r srv Hcl), Hdec. unfold some_res, rmap. cbn [fst snd].
+    rewrite strip_padding_inner by discriminate. rewrite rev_app_distr. cbn [rev app].
+    change (22 =? 22) with true. cbv iota. rewrite rev_involutive. unfold hs_buf. reflexivity.
+  - unfold P13, cur_key, cur_iv, cur_seq in *. rewrite Hs'. destruct srv; cbn [set_seq d_server_key d_client_key d_server_iv d_client_iv d_tag_length d_server_seq d_client_seq]; repeat split; auto; lia.
+  - apply class13_set_seq. exact Hcl.
+Qed.
+
+Fixpoint send_pieces (key iv : bytes) (st : sstate) (ps : list (bytes * nat)) : result (sstate * list tls_record) :=
+  match ps with
+  | [] => Ok (st, [])
+  | (piece, pad) :: t => do x <- send13 C a tag key iv version st piece 22 pad; do y <- send_pieces key iv (fst x) t; Ok (fst y, snd x :: snd y)
+  end.
+
+Lemma set_hs_fields s srv b : ts_can_decrypt (set_hs s srv b) = ts_can_decrypt s /\ ts_version (set_hs s srv b) = ts_version s /\
+  ts_decryptor (set_hs s srv b) = ts_decryptor s /\ hs_buf (set_hs s srv b) srv = b /\ hs_buf (set_hs s srv b) (negb srv) = hs_buf s (negb srv).
+Proof. destruct srv; repeat split; reflexivity. Qed.
+
+(* the flight of one direction, cut into records at any bytes *)
+Lemma hs_flight srv hk hi ak ai fb : 8 <= len hi -> wfm (20, fb) ->
+  forall ps s d st rem stN rs,
+  Sess s d -> P13 srv hk hi tag (length ps) d st -> switch_ready d srv ak ai ->
+  Forall wfm rem -> Forall (fun m => fst m <> 20) rem -> Forall piece_ok ps -> ps <> [] ->
+  hs_buf s srv ++ concat (map fst ps) = stream (rem ++ [(20, fb)]) ->
+  send_pieces hk hi st ps = Ok (stN, rs) ->
+  exists s' d', session_run s (map (pair srv) rs) = Ok (s', []) /\ Sess s' d' /\ hs_buf s' srv = [] /\ hs_buf s' (negb srv) = hs_buf s (negb srv) /\
+                d_tag_length d' = d_tag_length d /\ cur_key d' srv = Some ak /\ cur_iv d' srv = Some ai /\ cur_seq d' srv = 0 /\
+                cur_key d' (negb srv) = cur_key d (negb srv) /\ cur_iv d' (negb srv) = cur_iv d (negb srv) /\ cur_seq d' (negb srv) = cur_seq d (negb srv) /\
+                (forall ak' ai', switch_ready d (negb srv) ak' ai' -> switch_ready d' (negb srv) ak' ai').
+Proof.
+  intros Hiv Hwf. induction ps as [|[piece pad] ps IH]; intros s d st rem stN rs HS HP Hsw Hwr Hnr Hok Hne Hcat Hsend; [exfalso; apply Hne; reflexivity|]. clear Hne.
+  inversion Hok as [|? ? Hp Hps]; subst. cbn [send_pieces] in Hsend.
+  destruct (send13 C a tag hk hi version st piece 22 pad) as [[st1 r]|] eqn:E1; [|discriminate]. cbn [bind fst snd] in Hsend.
+  destruct (send_pieces hk hi st1 ps) as [[st2 rs2]|] eqn:E2; [|discriminate]. cbn [bind fst snd] in Hsend. injection Hsend as <- <-.
+  cbn [length] in HP. destruct (one_hs_record s d srv hk hi st (length ps) piece pad st1 r HS Hiv HP Hp E1) as (Hh & HP1 & Hcl1).
+  cbv zeta in Hh. set (d1 := set_seq d srv (ss_seq st + 1)) in *. set (buf := hs_buf s srv ++ piece) in *.
+  pose proof (switch_ready_set_seq d srv ak ai srv (ss_seq st + 1) Hsw) as Hsw1. fold d1 in Hsw1.
+  destruct HS as (Hcan & Hv & Hd & Hcl).
+  cbn [map concat fst] in Hcat. rewrite app_assoc in Hcat. fold buf in Hcat.
+  destruct ps as [|p2 ps'].
+  - (* the piece that completes the flight *)
+    cbn [map concat] in Hcat. rewrite app_nil_r in Hcat. cbn [send_pieces] in E2. injection E2 as <- <-.
+    destruct (switch_keys d1 srv ak ai Hsw1 Hcl1) as (d' & Hu & Hcl' & Htl & Hk' & Hi' & Hs' & Ok1 & Oi1 & Os1 & Osw).
+    rewrite Hcat in Hh. rewrite (consume_whole srv rem fb Hwr Hnr Hwf d1 d' _ Hu) in Hh by lia.
+    destruct (set_hs_fields (set_dec (set_dec s (Some d1)) (Some d')) srv []) as (F1 & F2 & F3 & F4 & F5).
+    eexists _, d'. cbn [map session_run]. rewrite Hh. cbn [bind fst snd session_run]. split; [reflexivity|].
+    destruct (set_seq_other d (negb srv) (ss_seq st + 1)) as (E1' & E2' & E3'). rewrite Bool.negb_involutive in *. fold d1 in E1', E2', E3'.
+    split; [unfold Sess; rewrite F1, F2, F3; cbn [set_dec upd ts_can_decrypt ts_version ts_decryptor]; auto|].
+    split; [exact F4|]. split; [rewrite F5; destruct srv; reflexivity|].
+    split; [rewrite Htl; destruct srv; reflexivity|].
+    split; [exact Hk'|]. split; [exact Hi'|]. split; [exact Hs'|]. split; [congruence|]. split; [congruence|]. split; [congruence|].
+    intros ak' ai' Hr. apply Osw. apply switch_ready_set_seq. exact Hr.
+  - (* more pieces follow: the flight is incomplete, no switch *)
+    assert (HX : concat (map fst (p2 :: ps')) <> []).
+    { inversion Hps as [|? ? [Hne _] _]; subst. cbn [map concat]. destruct (fst p2); [contradiction|discriminate]. }
+    assert (Hrl : Forall (fun m => fst m <> 20) (removelast (rem ++ [(20, fb)]))) by (rewrite removelast_flight; exact Hnr).
+    assert (Hwall : Forall wfm (rem ++ [(20, fb)])) by (apply Forall_app; split; [exact Hwr|constructor; [exact Hwf|constructor]]).
+    destruct (consume_prefix srv _ Hwall Hrl buf _ d1 (S (length buf)) Hcat HX ltac:(lia)) as (j & remaining & Hc & Hleft & Hj).
+    rewrite Hc in Hh. rewrite skipn_flight in Hleft by exact Hj.
+    set (s1 := set_hs (set_dec (set_dec s (Some d1)) (Some d1)) srv remaining) in *.
+    destruct (set_hs_fields (set_dec (set_dec s (Some d1)) (Some d1)) srv remaining) as (F1 & F2 & F3 & F4 & F5). fold s1 in F1, F2, F3, F4, F5.
+    assert (HS1 : Sess s1 d1) by (unfold Sess; rewrite F1, F2, F3; cbn [set_dec upd ts_can_decrypt ts_version ts_decryptor]; auto).
+    rewrite <- F4 in Hleft.
+    destruct (IH s1 d1 st1 (skipn j rem) st2 rs2 HS1 HP1 Hsw1 (Forall_skipn' _ _ _ Hwr) (Forall_skipn' _ _ _ Hnr) Hps ltac:(discriminate) Hleft E2)
+      as (s' & d' & Hrun & HS' & B1 & B2 & T1 & K1 & I1 & S1 & K2 & I2 & S2 & Osw).
+    exists s', d'. cbn [map session_run]. rewrite Hh. cbn [bind fst snd]. rewrite Hrun. cbn [bind fst snd app].
+    destruct (set_seq_other d (negb srv) (ss_seq st + 1)) as (E1' & E2' & E3'). rewrite Bool.negb_involutive in *. fold d1 in E1', E2', E3'.
+    split; [reflexivity|]. split; [exact HS'|]. split; [exact B1|]. split; [rewrite B2, F5; destruct srv; reflexivity|].
+    split; [rewrite T1; destruct srv; reflexivity|].
+    split; [exact K1|]. split; [exact I1|]. split; [exact S1|]. split; [congruence|]. split; [congruence|]. split; [congruence|].
+    intros ak' ai' Hr. apply Osw. apply switch_ready_set_seq. exact Hr.
+Qed.
+
+Lemma session_run_app s x y : session_run s (x ++ y) = (do r1 <- session_run s x; do r2 <- session_run (fst r1) y; Ok (fst r2, snd r1 ++ snd r2)).
+Proof.
+  revert s. induction x as [|[srv r] t IH]; intros s.
+  - cbn [app session_run bind fst snd]. destruct (session_run s y) as [[s2 o2]|]; reflexivity.
+  - cbn [app session_run]. destruct (handle_tls_record C tbl parts keylog s r srv) as [[s1 o1]|]; [|reflexivity]. cbn [bind fst snd]. rewrite IH.
+    destruct (session_run s1 t) as [[s2 o2]|]; [|reflexivity]. cbn [bind fst snd].
+    destruct (session_run s2 y) as [[s3 o3]|]; [|reflexivity]. cbn [bind fst snd]. now rewrite app_assoc.
+Qed.
+
+(* the connection behind the ServerHello: the server's flight and then the client's, each cut into records at any bytes and padded at
+   will, both ending with the Finished; then any interleaving of application records under the application keys *)
+Theorem tls13_connection hk_c hi_c hk_s hi_s pre_s fb_s pre_c fb_c ps_s ps_c evs s d st_c st_s stc0 sts0 stN_s rs_s stN_c rs_c stc' sts' rs :
+  8 <= len hi_c -> 8 <= len hi_s ->
+  Sess s d -> hs_buf s true = [] -> hs_buf s false = [] ->
+  P13 true hk_s hi_s tag (length ps_s) d st_s -> P13 false hk_c hi_c tag (length ps_c) d st_c ->
+  switch_ready d true key_s iv_s -> switch_ready d false key_c iv_c ->
+  Forall wfm pre_s -> Forall (fun m => fst m <> 20) pre_s -> wfm (20, fb_s) -> Forall piece_ok ps_s -> ps_s <> [] -> concat (map fst ps_s) = stream (pre_s ++ [(20, fb_s)]) ->
+  Forall wfm pre_c -> Forall (fun m => fst m <> 20) pre_c -> wfm (20, fb_c) -> Forall piece_ok ps_c -> ps_c <> [] -> concat (map fst ps_c) = stream (pre_c ++ [(20, fb_c)]) ->
+  send_pieces hk_s hi_s st_s ps_s = Ok (stN_s, rs_s) -> send_pieces hk_c hi_c st_c ps_c = Ok (stN_c, rs_c) ->
+  ss_seq stc0 = 0 -> ss_seq sts0 = 0 -> Z.of_nat (length evs) <= 2 ^ 64 -> Forall ev_ok evs -> play stc0 sts0 evs = Ok (stc', sts', rs) ->
+  exists s' out, session_run s (map (pair true) rs_s ++ map (pair false) rs_c ++ rs) = Ok (s', out) /\
+                 map shown out = map (fun e : ev => let '(srv, c, _) := e in (srv, Some c, false)) evs /\ Inv13 s' stc' sts' 0.
+Proof.
+  intros Hic His HS Bs Bc Ps Pc Ws Wc Hws Hns Hfs Hoks Hnes Hcs Hwc Hnc Hfc Hokc Hnec Hcc Es Ec Z1 Z2 Hn Hev Hplay.
+  (* the server's flight *)
+  destruct (hs_flight true hk_s hi_s key_s iv_s fb_s His Hfs ps_s s d st_s pre_s stN_s rs_s HS Ps Ws Hws Hns Hoks Hnes ltac:(rewrite Bs; exact Hcs) Es)
+    as (s1 & d1 & R1 & HS1 & B1 & B1' & T1 & K1 & I1 & S1 & K1' & I1' & S1' & Sw1).
+  cbn [negb] in *.
+  assert (Pc1 : P13 false hk_c hi_c tag (length ps_c) d1 st_c).
+  { destruct Pc as (a1 & a2 & a3 & a4 & a5 & a6). unfold P13. rewrite K1', I1', S1', T1. repeat split; auto. }
+  (* the client's flight *)
+  destruct (hs_flight false hk_c hi_c key_c iv_c fb_c Hic Hfc ps_c s1 d1 st_c pre_c stN_c rs_c HS1 Pc1 (Sw1 _ _ Wc) Hwc Hnc Hokc Hnec ltac:(rewrite B1', Bc; exact Hcc) Ec)
+    as (s2 & d2 & R2 & HS2 & B2 & B2' & T2 & K2 & I2 & S2 & K2' & I2' & S2' & Sw2).
+  cbn [negb] in *.
+  (* the application phase *)
+  assert (HI : Inv13 s2 stc0 sts0 (length evs)).
+  { destruct HS2 as (c1 & c2 & c3 & c4). destruct Ps as (_ & _ & Tg & _). unfold Inv13. repeat split; auto. exists d2. split; [exact c3|]. split; [exact c4|].
+    unfold P13. rewrite K2, I2, S2, K2', I2', S2', K1, I1, S1, T2, T1, Z1, Z2. repeat split; auto; lia. }
+  destruct (tls13_session evs s2 stc0 sts0 stc' sts' rs HI Hev Hplay) as (s3 & out & R3 & Hm & _ & HI3).
+  exists s3, out. split; [|split; [exact Hm|exact HI3]].
+  rewrite session_run_app, R1. cbn [bind fst snd]. rewrite session_run_app, R2. cbn [bind fst snd]. rewrite R3. cbn [bind fst snd app]. reflexivity.
+Qed.
+
+(* the premises are what Decryptor.__init__ produces from a complete TLS 1.3 key set: both directions on their handshake keys,
+   sequence numbers 0, application keys in store *)
+Lemma fresh_decryptor k ml bl exts comp chk chi shk shi cak cai sak sai :
+  a = AESGCM \/ a = AESCCM \/ a = ChaCha20Poly1305 ->
+  client_hs_key k = Some chk -> client_hs_iv k = Some chi -> server_hs_key k = Some shk -> server_hs_iv k = Some shi ->
+  client_app_key k = Some cak -> client_app_iv k = Some cai -> server_app_key k = Some sak -> server_app_iv k = Some sai ->
+  exists d, new_decryptor (Some a) (K13 k) TLS13 ml tag bl exts comp = Ok d /\ class13 d /\ d_tag_length d = tag /\
+            cur_key d true = Some shk /\ cur_iv d true = Some shi /\ cur_seq d true = 0 /\
+            cur_key d false = Some chk /\ cur_iv d false = Some chi /\ cur_seq d false = 0 /\
+            switch_ready d true sak sai /\ switch_ready d false cak cai.
+Proof.
+  intros Ha H1 H2 H3 H4 H5 H6 H7 H8. unfold new_decryptor, class13. cbn [version_eqb]. rewrite H1, H2, H3, H4, H5, H6, H7, H8. cbn [bind].
+  destruct Ha as [Ea|[Ea|Ea]]; rewrite Ea; cbn [get_cipher_type bind]; eexists; (split; [reflexivity|]);
+    unfold cur_key, cur_iv, cur_seq, switch_ready; cbn; repeat split; auto; try discriminate; tauto.
 Qed.
 End Session13.
